@@ -17,6 +17,7 @@ import ALV.Lemmas.C07Hash
 import ALV.Lemmas.C07Spec
 import ALV.Lemmas.C07LagrangePoly
 import ALV.Lemmas.C07Hist
+import ALV.Lemmas.C07Zero
 import ALV.Common.Audit
 
 set_option linter.unusedSectionVars false
@@ -512,6 +513,136 @@ theorem hist_pow_current {st : HState K} {i a : ℕ} {o : Obj K} (ho : st.obj i 
     simp
   · exact ⟨pow o.data (n : ℤ), Or.inl (by simp [act, ho, hs]), toLaurent_pow _ n⟩
 
+/-! ## 8. the `zero` attribute and the spelling of numbers (`Model/C07Zero.lean`)
+
+Values are Python numbers tagged with their kind (`PyNum`: bool / int / Fraction / float / complex), a zero is a
+number or one of the unhashable `[]`, `{}` (`PyVal`), a Poly is its `_data` AND its `_zero` (`ZPoly`); every
+operation is as coded: which zero the result inherits, compaction with `==` against that zero.  A history (`ZOp`)
+is any sequence of constructions (every input kind, zero given / omitted), copies, casts, the `zero` setter, item
+assignment, `+ - * ** /` with Polys and numbers on either side, composition, calls, `diff`, `integrate`, `hash`,
+`==`, `!=` on the objects obtained so far. -/
+
+/-- **C07.9a** Python's `==` on numbers is an equivalence that does not look at the kind. -/
+theorem pynum_eq_equiv (a b c : PyNum) :
+    a.eq a = true ∧ (a.eq b = true → b.eq a = true) ∧ (a.eq b = true → b.eq c = true → a.eq c = true) ∧
+      (a.eq b = true ↔ a.re = b.re ∧ a.im = b.im) :=
+  ⟨PyNum.eq_refl a, PyNum.eq_symm, PyNum.eq_trans, PyNum.eq_iff a b⟩
+
+/-- **C07.9b** Python's hash law, for the modelled CPython algorithm (`|n|·d⁻¹ mod 2^61−1`, complex
+`hash(re) + 1000003·hash(im)` in 64-bit wrap-around): numbers that compare equal hash alike — `0`, `0.0`,
+`Fraction(0)`, `False`, `0j` included. -/
+theorem pynum_eq_hash {a b : PyNum} (h : a.eq b = true) : a.hash = b.hash := PyNum.hash_eq_of_eq h
+
+/-- **C07.9c** arithmetic is blind to the spelling: `+ - *` and unary `-` send `==` operands to `==` results,
+whatever the kinds (bool / int / Fraction / float / complex) on either side. -/
+theorem pynum_arith_spelling_blind {a a' b b' : PyNum} (ha : a.eq a' = true) (hb : b.eq b' = true) :
+    (a + b).eq (a' + b') = true ∧ (a - b).eq (a' - b') = true ∧ (a * b).eq (a' * b') = true ∧
+      (-a).eq (-a') = true := PyNum.arith_congr ha hb
+
+/-- **C07.9d** zeros (numbers, `[]`, `{}`): `==` implies equal `hash` — or TypeError on both sides. -/
+theorem pyval_eq_hash {a b : PyVal} (h : a.eq b = true) : a.hash = b.hash := PyVal.hash_eq_of_eq h
+
+/-- **C07.9e** `p == q → hash(p) == hash(q) ∧ ¬ p != q` for Polys whose zeros and coefficients are spelled in
+any kinds (`__eq__` compares the zeros with `==`, then the dictionaries; `__hash__` hashes
+`(frozenset(items), zero)`): the only hypothesis is that `_data` is a dictionary (distinct powers). -/
+theorem zpoly_eq_hash {p q : ZPoly} (hp : NodupKeys p) (hq : NodupKeys q) (h : eqZ p q = true) :
+    hashZ p = hashZ q ∧ neZ p q = false := ⟨hashZ_eq_of_eqZ hp hq h, by simp [neZ, h]⟩
+
+theorem zpoly_ne_not_eq (p q : ZPoly) : neZ p q = !eqZ p q := rfl
+
+/-- a Poly is hashable iff its zero is a number (TypeError for `zero=[]`, `zero={}`) -/
+theorem zpoly_hashable_iff (p : ZPoly) : (∃ k, hashZ p = .ok k) ↔ ∃ x, p.zero = .num x := hashZ_ok_iff p
+
+/-- **C07.9f** the same terms given with two spellings of the zero are `==` Polys (so they hash alike). -/
+theorem zpoly_respelled_zero_eq (l : List (Int × PyNum)) {z z' : PyVal} (h : z.eq z' = true) :
+    eqZ (normZ l z) (normZ l z') = true := by
+  have hs : ∀ c, stored z c = stored z' c := by
+    intro c
+    unfold stored
+    cases h1 : PyVal.eq (.num c) z <;> cases h2 : PyVal.eq (.num c) z' <;> simp
+    · exact absurd (PyVal.eq_trans h2 (PyVal.eq_symm h)) (by simp [h1])
+    · exact absurd (PyVal.eq_trans h1 h) (by simp [h2])
+  have hd : (normZ l z).data = (normZ l z').data := by
+    simp only [normZ, compactZ, hs]
+  unfold eqZ
+  rw [← hd, dictsEq_refl (good_normZ l z).1]
+  simp [normZ, h]
+
+/-- **C07.9g** which zero a result inherits: the constructor's argument (default: the float `0.`; the copy
+constructor and `copy()` default to the source's), the LEFT operand of `+ - *`, the Poly operand of every operator
+with a number on either side, the base of `**`, the dividend of `/`, the OUTER Poly of a composition, the operand of
+`diff` / `integrate` / unary `-`. -/
+theorem zero_inheritance (p q : ZPoly) (l : List (Int × PyNum)) (cs : List PyNum) (c : PyNum) (z : Option PyVal)
+    (n : ℕ) (s : ScalOp) :
+    (ofDictZ l z).zero = z.getD dfltZero ∧ (ofListZ cs z).zero = z.getD dfltZero ∧
+    (ofNumZ c z).zero = z.getD dfltZero ∧ (ofNoneZ z).zero = z.getD dfltZero ∧
+    (ofPolyZ p z).zero = z.getD p.zero ∧ (copyZ p z).zero = z.getD p.zero ∧
+    (negZ p).zero = p.zero ∧ (posZ p).zero = p.zero ∧ (addZ p q).zero = p.zero ∧ (subZ p q).zero = p.zero ∧
+    (mulZ p q).zero = p.zero ∧ (scalZ s p c).zero = p.zero ∧ (diffZ p n).zero = p.zero := by
+  refine ⟨rfl, rfl, rfl, rfl, rfl, rfl, rfl, rfl, rfl, rfl, rfl, ?_, rfl⟩
+  cases s <;> rfl
+
+theorem powLoopZ_zero (p : ZPoly) (m : ℕ) : (powLoopZ p m).zero = p.zero := by
+  induction m with
+  | zero => rfl
+  | succ m ih => exact ih
+
+theorem zero_inheritance_partial_ops {p q r : ZPoly} {c : PyNum} {n : ℤ} {ek : ExpKind} :
+    (divsZ p c = .ok r → r.zero = p.zero) ∧ (divZ p q = .ok r → r.zero = p.zero) ∧
+    (integrateZ p = .ok r → r.zero = p.zero) ∧ (powZ p n ek = .new r → r.zero = p.zero) ∧
+    (composeZ p q = .ok r → r.zero = p.zero) := by
+  refine ⟨?_, ?_, ?_, ?_, ?_⟩
+  · intro h; unfold divsZ at h; split at h
+    · cases h; rfl
+    · split at h <;> cases h; rfl
+  · intro h; unfold divZ at h; split at h
+    · cases h
+    · split at h
+      · cases h; rfl
+      · split at h <;> cases h; rfl
+    · cases h
+  · intro h; unfold integrateZ at h; split at h <;> cases h; rfl
+  · intro h; unfold powZ at h; split at h
+    · cases h; rfl
+    · split at h
+      · cases h; rfl
+      · split at h
+        · cases h; rfl
+        · split at h <;> cases h; rfl
+      · split at h
+        · cases h
+        · split at h <;> cases h
+          exact powLoopZ_zero _ _
+  · intro h; unfold composeZ at h; split at h <;> cases h <;> rfl
+
+/-- **C07.9h** the invariant of every history, for every zero: in every object of the heap the powers are distinct
+and no coefficient `==` to the object's OWN zero is stored (constructors, the `zero` setter — which compacts against
+the new zero —, item assignment, every operator, failed steps in between). -/
+theorem zhist_inv (ops : List ZOp) : ZInv (zrun ZState.empty ops) := zinv_zrun zinv_empty ops
+
+theorem zhist_step_inv {st : ZState} (h : ZInv st) (op : ZOp) : ZInv (zstep st op) := zinv_zstep h op
+
+/-- **C07.9i** for EVERY history of constructions and operations and any two variables: `p == q` implies
+`hash(p) == hash(q)` (or both unhashable) and `not (p != q)` — across all spellings of zeros and coefficients. -/
+theorem zhist_eq_hash (ops : List ZOp) {i j : ℕ} {p q : ZPoly}
+    (hi : (zrun ZState.empty ops).val i = some p) (hj : (zrun ZState.empty ops).val j = some q)
+    (h : eqZ p q = true) : hashZ p = hashZ q ∧ neZ p q = false :=
+  zpoly_eq_hash (zval_good (zhist_inv ops) hi).1 (zval_good (zhist_inv ops) hj).1 h
+
+/-- **C07.9j** a step that raises leaves no trace; a hashed object refuses `p[k] = c` and `p.zero = z`; hashing an
+object whose zero is unhashable raises TypeError and does not freeze it. -/
+theorem zhist_failed_step {st : ZState} {op : ZOp} {e : PyErr} (h : zact st op = .fail e) : zstep st op = st :=
+  zfail_unchanged h
+
+theorem zhist_hashed_refuses {st : ZState} {i a : ℕ} {o : ZObj} (ho : st.obj i = some (a, o))
+    (hh : o.hashed = true) (k : ℤ) (c : PyNum) (z : PyVal) :
+    zact st (.setitem i k c) = .fail .type ∧ zact st (.setzero i z) = .fail .type := by
+  simp [zact, ho, hh]
+
+theorem zhist_unhashable_zero {st : ZState} {i a : ℕ} {o : ZObj} (ho : st.obj i = some (a, o))
+    (hz : o.p.zero = .elist ∨ o.p.zero = .edict) : zact st (.hash i) = .fail .type := by
+  rcases hz with hz | hz <;> simp [zact, ho, hashZ, hz, PyVal.hash, bind, Except.bind]
+
 /-! ## non-vacuity: every hypothesis used above is satisfiable on a non-trivial input -/
 
 section Examples
@@ -582,6 +713,32 @@ example : ((hrun (HState.init [q0] []) [.setitem 0 1 0, .hash 0, .setitem 0 3 5]
 example : HWF (hrun (HState.init [p0, q0] []) [.bin .mul 0 1, .setitem 2 0 0, .comp 1 2]) :=
   (hist_wf (by intro p hp; simp at hp; rcases hp with rfl | rfl; exacts [wp, wq]) [] _).1
 example : act (HState.init [p0, q0] ([] : List (List (Int × ℚ)))) (.bin .mul 0 1) = .alloc (mul p0 q0) := rfl
+
+-- zeros and spellings: `Poly({1: Fraction(1, 2), 0: 3})` with the default zero, `zero=0`, `zero=False`, `zero=0j`
+private def zl : List (Int × PyNum) := [(1, .frac (1 / 2)), (0, .int 3)]
+example : eqZ (ofDictZ zl none) (ofDictZ zl (some (.num (.int 0)))) = true := by decide +kernel
+example : hashZ (ofDictZ zl none) = hashZ (ofDictZ zl (some (.num (.bool false)))) :=
+  (zpoly_eq_hash (good_normZ _ _).1 (good_normZ _ _).1 (by decide +kernel)).1
+example : eqZ (normZ zl (.num (.cplx 0 0 true))) (normZ zl (.num (.frac 0))) = true :=
+  zpoly_respelled_zero_eq zl (by decide +kernel)
+example : PyNum.hash (.float (1 / 2) true) = PyNum.hash (.cplx (1 / 2) 0 true) := pynum_eq_hash (by decide +kernel)
+example : PyNum.hash (.frac (1 / 3)) = 1537228672809129301 := by decide +kernel
+example : PyNum.hash (.int (-1)) = -2 ∧ PyNum.hash (.cplx (1 / 2) (-1 / 4) true) = -576460752303423488 := by
+  decide +kernel
+-- `x + 1` (zero `0.`) and `1 + x` built on `zero=Fraction(0)`: equal, equal hashes, zeros spelled differently
+example : (zrun ZState.empty [.ctorDict [(1, .int 1)] none, .ctorDict [(1, .int 1)] (some (.num (.frac 0))),
+    .scal .adds 0 (.int 1), .scal .radds 1 (.int 1)]).heap.map (·.p.zero) =
+    [.num (.float 0 true), .num (.frac 0), .num (.float 0 true), .num (.frac 0)] := by decide +kernel
+example : hashZ ⟨[(1, .int 1), (0, .int 1)], .num (.float 0 true)⟩ = hashZ ⟨[(0, .int 1), (1, .int 1)], .num (.frac 0)⟩ :=
+  (zhist_eq_hash [.ctorDict [(1, .int 1)] none, .ctorDict [(1, .int 1)] (some (.num (.frac 0))),
+    .scal .adds 0 (.int 1), .scal .radds 1 (.int 1)] (i := 2) (j := 3) (by decide +kernel) (by decide +kernel)
+    (by decide +kernel)).1
+-- the setter compacts against the NEW zero; `zero=[]` keeps a numeric 0 and is unhashable
+example : setZeroZ (ofListZ [.int 1, .int 0, .int 2] (some .elist)) (.num (.bool false)) =
+    ⟨[(0, .int 1), (2, .int 2)], .num (.bool false)⟩ := by decide +kernel
+example : hashZ (ofListZ [.int 1, .int 0, .int 2] (some .elist)) = .error .type := by decide +kernel
+example : (PyNum.int 1 / PyNum.int 2 : PyNum) = .float (1 / 2) true ∧ (PyNum.bool true + PyNum.bool true : PyNum) = .int 2 ∧
+    (PyNum.frac (1 / 3) * PyNum.float (1 / 2) true : PyNum) = .float (1 / 6) false := by decide +kernel
 
 end Examples
 
